@@ -136,6 +136,47 @@ def pair_oracle(run, cols, A, B, cache, via_fit=False):
                  "C06_rejected_again")
 
 
+def shared_object_cases(run, cols, reqs, cache):
+    """request A with the caller's own list / dict objects, then the caller
+    edits these very objects in place into request B and passes them again:
+    the columns must be those of B on a fresh curve (what counts is the value
+    at the time of the call)"""
+    ok = [r for r in reqs if isinstance(r[0], list) and r[0]
+          and (r[1] is None or isinstance(r[1], dict))
+          and reference(cols, r, cache)[0] == "ok"]
+    pairs = [(A, B) for A in ok for B in ok if canon(A) != canon(B)]
+    step = max(1, len(pairs) // (30 if run.tier == "quick" else 300))
+    for A, B in pairs[::step]:
+        refB = reference(cols, B, cache)
+        idnt = curves.make_indentation(cols)
+        steps = copy.deepcopy(A[0])
+        opts = copy.deepcopy(A[1]) if A[1] is not None else {}
+        key = "shared:" + common.sha([canon(A), canon(B)])[:16]
+        payload = {"kind": "rerun"}
+        run.case({"A": canon(A), "B": canon(B), "shared-objects": True},
+                 kind="shared-objects")
+        try:
+            idnt.apply_preprocessing(steps, opts)
+            steps[:] = copy.deepcopy(B[0])
+            opts.clear()
+            opts.update(copy.deepcopy(B[1]) if B[1] is not None else {})
+            idnt.apply_preprocessing(steps, opts)
+        except BaseException as e:
+            if isinstance(e, (KeyboardInterrupt, SystemExit, MemoryError)):
+                raise
+            run.failing(SITE, key, f"{canon(A)} then (same objects edited "
+                        f"in place) {canon(B)}: raised {type(e).__name__}: "
+                        f"{e}", payload=payload)
+            continue
+        now = snapshot(idnt)
+        d = diff_cols(now, refB[1])
+        if d:
+            run.failing(SITE, key, f"{canon(A)} then, with the same list / "
+                        f"dict objects edited in place, {canon(B)}: columns "
+                        "differ from the second request on a fresh curve: "
+                        + d, payload=payload, theorem="C06_execute_or_skip")
+
+
 def check(run):
     run.sources = common.source_digests(["src/nanite/indent.py",
                                          "src/nanite/preproc.py"])
@@ -169,6 +210,7 @@ def check(run):
     for A in reqs[::3]:
         for B in reqs[::2]:
             pair_oracle(run, cols, A, B, cache, via_fit=True)
+    shared_object_cases(run, cols, reqs, cache)
     if run.tier != "quick":
         from nanite import IndentationGroup
         import pathlib
